@@ -293,7 +293,10 @@ func (sig *Signature[GE, S]) Equal(other *Signature[GE, S]) bool {
 	if sig == nil || other == nil {
 		return sig == other
 	}
-	return sig.E.Equal(other.E) && sig.R.Equal(other.R) && sig.S.Equal(other.S)
+	if utils.IsNil(sig.E) != utils.IsNil(other.E) || utils.IsNil(sig.R) != utils.IsNil(other.R) {
+		return false
+	}
+	return (utils.IsNil(sig.E) || sig.E.Equal(other.E)) && (utils.IsNil(sig.R) || sig.R.Equal(other.R)) && sig.S.Equal(other.S)
 }
 
 // Clone returns a deep copy of the signature.
@@ -301,16 +304,26 @@ func (sig *Signature[GE, S]) Clone() *Signature[GE, S] {
 	if sig == nil {
 		return nil
 	}
-	return &Signature[GE, S]{
-		E: sig.E.Clone(),
-		R: sig.R.Clone(),
-		S: sig.S.Clone(),
+	clone := &Signature[GE, S]{S: sig.S.Clone()} //nolint:exhaustruct // e and r are optional
+	if !utils.IsNil(sig.E) {
+		clone.E = sig.E.Clone()
 	}
+	if !utils.IsNil(sig.R) {
+		clone.R = sig.R.Clone()
+	}
+	return clone
 }
 
 // HashCode returns a hash code for the signature, useful for hash-based collections.
 func (sig *Signature[GE, S]) HashCode() base.HashCode {
-	return sig.E.HashCode() ^ sig.R.HashCode() ^ sig.S.HashCode()
+	h := sig.S.HashCode()
+	if !utils.IsNil(sig.E) {
+		h ^= sig.E.HashCode()
+	}
+	if !utils.IsNil(sig.R) {
+		h ^= sig.R.HashCode()
+	}
+	return h
 }
 
 // KeyGeneratorTrait provides common key generation logic for Schnorr schemes.
